@@ -54,12 +54,32 @@ def gen_plan(rng, tier='quick', traces=None):
                 fam, pts = curves.gen_curve(rng, n, rng.choice(fams), scale=False)
         else:
             fam, pts = curves.gen_curve(rng, n, rng.choice(fams), scale=rng.random() < 0.15)
+        curves_so_far = [o for o in pool if o['kind'] == 'curve']
+        sib = None
+        if curves_so_far and rng.random() < 0.45:
+            # a look-alike of an earlier curve: same x grid, same end points, some interior y values changed
+            sib = rng.randrange(len(curves_so_far))
+            src = [[unhex(x), unhex(y)] for x, y in curves_so_far[sib]['points']]
+            m = len(src)
+            a = rng.randrange(1, max(2, m - 1))
+            b = rng.randint(a, max(a, m - 2))
+            mode = rng.choice(['scale', 'noise', 'flat'])
+            pts = [list(p) for p in src]
+            for i in range(a, b + 1):
+                if 0 < i < m - 1:
+                    if mode == 'scale':
+                        pts[i][1] = src[i][1] * 1.5
+                    elif mode == 'noise':
+                        pts[i][1] = max(src[i][1] + rng.uniform(-0.3, 0.3) * (abs(src[i][1]) + 1.0), 0.0)
+                    else:
+                        pts[i][1] = src[a][1]
+            fam = 'sibling-of-%d:%s' % (sib, mode)
         last_n = len(pts)
         lay = rng.choice(layouts_enabled)
         if lay == 'int64' and not worlds.integral(pts):
             lay = rng.choice([l for l in layouts_enabled if l != 'int64'] or ['C'])
         pool.append({'kind': 'curve', 'family': fam, 'points': [[fhex(x), fhex(y)] for x, y in pts],
-                     'layout': lay, 'salt': rng.randrange(1 << 30)})
+                     'layout': lay, 'salt': rng.randrange(1 << 30), 'sibling': sib})
     for ci in range(ncurves):
         n = len(pool[ci]['points'])
         if n >= 5 and rng.random() < 0.8:
@@ -107,7 +127,9 @@ def gen_plan(rng, tier='quick', traces=None):
     iso = {}
     budget_iso = rng.choice([0, 4, 8, 16])
     cand = [(c, k) for c in range(nclients) for k, stp in enumerate(clients[c]['steps']) if not stp['fn'].startswith('caller.')]
-    for c, k in rng.sample(cand, min(len(cand), budget_iso)):
+    chosen = rng.sample(cand, min(len(cand), budget_iso))
+    chosen += [(c, k) for c, k in cand if clients[c]['steps'][k].get('probe') and (c, k) not in chosen]
+    for c, k in chosen:
         iso.setdefault(str(c), []).append(k)
     for v in iso.values():
         v.sort()
@@ -361,6 +383,11 @@ def run_ref_client(plan, c):
         o = _call_step(step, objs, results, findings, [None, c, k], type_only, iso)
         results[k] = o
         out[k] = _enc_outcome(o)
+    for k in sorted(results):
+        if results[k][0] == 'ok' and _has_array(results[k][1]) and _enc_outcome(results[k]) != out[k]:
+            f0 = plan['clients'][c]['steps'][k]['fn']
+            findings.append({'oracle': 'P3', 'key': 'P3:%s' % f0, 'where': [None, c, k], 'fn': f0,
+                             'detail': 'the value returned by %s (client %d step %d) changed after it was returned' % (f0, c, k)})
     return out, findings, (_SERVER.calls if _SERVER is not None else 0)
 
 
@@ -390,6 +417,7 @@ def run_sim(plan, stats):
     encs = {c: {} for c in range(len(plan['clients']))}
     events = []
     ndup = 0
+    live = set()
     for si, ent in enumerate(plan['schedule']):
         c, k = ent['c'], ent['k']
         if c >= len(plan['clients']) or k >= len(plan['clients'][c]['steps']):
@@ -417,6 +445,13 @@ def run_sim(plan, stats):
                 findings.append({'oracle': 'P1', 'key': 'P1pool:%s' % step['fn'], 'where': [si, c, k], 'fn': step['fn'],
                                  'detail': 'shared pool object %d (%s) changed during %s' % (pi, plan['pool'][pi]['kind'], step['fn'])})
                 base[pi] = worlds.snapshot(obj)
+        # P3: a result, once returned, never changes (no view into a buffer the library reuses)
+        for (cc, kk) in list(live):
+            if results[cc][kk][0] == 'ok' and _enc_outcome(results[cc][kk]) != encs[cc][kk]:
+                f0 = plan['clients'][cc]['steps'][kk]['fn']
+                findings.append({'oracle': 'P3', 'key': 'P3:%s' % f0, 'where': [si, c, k], 'fn': step['fn'],
+                                 'detail': 'the value returned earlier by %s (client %d step %d) changed during %s' % (f0, cc, kk, step['fn'])})
+                live.discard((cc, kk))
         if ent.get('dup'):
             ndup += 1
             bump('dups')
@@ -426,6 +461,8 @@ def run_sim(plan, stats):
         else:
             results[c][k] = o
             encs[c][k] = e
+            if o[0] == 'ok' and _has_array(o[1]):
+                live.add((c, k))
         if len(findings) > 30:
             break
     for q, n in mon.calls.items():
@@ -433,6 +470,14 @@ def run_sim(plan, stats):
     for s, n in poison_sites.items():
         bump('poison.' + s, n)
     return encs, findings, events, {'dups': ndup, 'poison_hits': sum(poison_sites.values())}
+
+
+def _has_array(v, depth=0):
+    if isinstance(v, np.ndarray):
+        return True
+    if isinstance(v, (list, tuple, dict)) and depth < 3:
+        return any(_has_array(x, depth + 1) for x in (v.values() if isinstance(v, dict) else v))
+    return False
 
 
 def _short(e, lim=160):
